@@ -3,7 +3,7 @@
    values and the values (colvarbias::write_state_data_key / memory_stream: length-prefixed).  Both are read back
    by looking the keywords up.  Definitions only. *)
 From Coq Require Import ZArith List Bool.
-From CV Require Import Base.Num C03.ResumeModel C06.RestraintModel C03.ObjectsModel.
+From CV Require Import Base.Num C03.ResumeModel C03.ObjectsModel C03.UsesC06.
 Import ListNotations.
 Local Open Scope Z_scope.
 
@@ -88,9 +88,9 @@ Section Format.
              (bind (lookup 3 fs) as_num) (bind (lookup 4 fs) as_num) (bind (lookup 5 fs) as_num).
 
   (* writing and reading a restraint in a given format *)
-  Definition r_write (O : NumOps T) (f : format) (c : @rcfg T) (s : @rstate T) : list item :=
+  Definition r_write (O : NumOps T) (f : format) (c : r_cfg T) (s : r_state T) : list item :=
     encode f (r_fields (r_save c s)).
-  Definition r_read (O : NumOps T) (f : format) (c : @rcfg T) (file : list item) : @rstate T :=
+  Definition r_read (O : NumOps T) (f : format) (c : r_cfg T) (file : list item) : r_state T :=
     r_load O c (r_of_fields (decode f file)).
 
   (* ---- ABMD: refValue, stoppingValue, forceConstant, decreasing ---- *)
